@@ -1,6 +1,7 @@
 package desync
 
 import (
+	"bytes"
 	"errors"
 	"io"
 	"io/ioutil"
@@ -84,6 +85,24 @@ func NewSparseFile(name string, idx Index, s Store, opt SparseFileOptions) (*Spa
 		}
 	}
 
+	// Read the state to pre-load from before anything is changed, it can be the
+	// same file as the saved state that is replaced below.
+	var initState []byte
+	if opt.StateInitFile != "" {
+		initState, err = ioutil.ReadFile(opt.StateInitFile)
+		if err != nil {
+			return nil, err
+		}
+	}
+
+	// The saved state isn't used. Replace it before the sparse file is brought to
+	// full size: left in place it would be paired with the re-initialized file by
+	// a later start and mark ranges as populated that are not, also if this
+	// start-up fails or is interrupted further down.
+	if err := sf.WriteState(); err != nil {
+		return nil, err
+	}
+
 	// Create the new file at full size, that was we can skip loading null-chunks,
 	// this should be a NOP if the file matches the index size already.
 	if err = f.Truncate(idx.Length()); err != nil {
@@ -94,21 +113,9 @@ func NewSparseFile(name string, idx Index, s Store, opt SparseFileOptions) (*Spa
 	// This will concurrently load all chunks marked "done" in the state file and
 	// write them to the sparse file.
 	if opt.StateInitFile != "" {
-		initFile, err := os.Open(opt.StateInitFile)
-		if err != nil {
+		if err := loader.preloadChunksFromState(bytes.NewReader(initState), opt.StateInitConcurrency); err != nil {
 			return nil, err
 		}
-		defer initFile.Close()
-		if err := loader.preloadChunksFromState(initFile, opt.StateInitConcurrency); err != nil {
-			return nil, err
-		}
-	}
-
-	// The sparse file was (re-)initialized without using the saved state. Replace
-	// that state now, it would otherwise be paired with this file on the next
-	// start and mark ranges as populated that are not.
-	if err := sf.WriteState(); err != nil {
-		return nil, err
 	}
 
 	return sf, nil
